@@ -51,6 +51,9 @@ Families
   (wave 6: every call form of price_grid and the explicit-argument calls of derivative_forms are wrapped by an argument
    snapshot - the caller's tensors must be bitwise unchanged, class mutates_argument_* -; the python-number form runs for
    all four products.)
+  (wave 7: derivative_forms walks the per-step accessors log_moneyness(i), max_log_moneyness(i), time_to_maturity(i) for
+   i in 0..T-1 and the negative aliases -2..-T: equal to the step's column of the harness features, and the module fed
+   with them reproduces that column of the reference.)
   law_crosscheck    model level, no pfhedge: the two routes to the running-maximum law (Girsanov
                     quadrature over driftless Brownian motion vs textbook closed survival function), the
                     layer-cake vs density form of the lookback expectation, the homogeneity reduction
@@ -516,6 +519,33 @@ def derivative_forms(ctx, block):
                               f"{label}.price(None for {nn_}) != {SITE[product]} at the derivative's state "
                               f"(path {spot[r].tolist()}, step {c}, strike {K}, call {call}, sigma {sigma})",
                               observed=float(o.flatten()[i]), expected=float(ref.flatten()[i]), block=mb, family="derivative_forms")
+    # per-step accessors of the derivative (indices 0..T-1 and the negative aliases -2..-T; max_moneyness(-1) raises on the
+    # reference tree and is left out): the triple at step i is column j = i mod T of the whole-path features, and the module
+    # fed with it gives column j of the reference
+    for i in list(range(T)) + list(range(-2, -T - 1, -1)):
+        j = i if i >= 0 else T + i
+        try:
+            lm_i, tt_i = deriv.log_moneyness(i), deriv.time_to_maturity(i)
+            mx_i = deriv.max_log_moneyness(i)
+        except (IndexError, RuntimeError) as e:
+            ctx.violation(site, f"step_accessor_raises:{type(e).__name__}", f"accessors at time_step={i} raised {e}", observed=repr(e)[:200],
+                          expected=f"values of step {j}", block=block, family="derivative_forms")
+            continue
+        ctx.tick(3 * N, nontrivial=3 * N if i < 0 else 0)
+        for what, got, full in (("log_moneyness", lm_i, lm), ("max_log_moneyness", mx_i, mlm), ("time_to_maturity", tt_i, ttm)):
+            if tuple(got.shape) != (N, 1) or not _bitwise_equal(got, full[:, [j]]):
+                ctx.violation(f"{type(deriv).__name__}.{what}(time_step)", "step_accessor_differs_from_step_" + ("negative_alias" if i < 0 else "index"),
+                              f"{what}({i}) != the value at step {j} computed from the buffer (strike {K})",
+                              observed=got.flatten()[:4].tolist(), expected=full[:, j][:4].tolist(), block=block, family="derivative_forms")
+        if j < T - 1 and tuple(mx_i.shape) == (N, 1):
+            o = main.price(lm_i, mx_i, tt_i, vol[:, [j]]) if HAS_MAX[product] else main.price(lm_i, tt_i, vol[:, [j]])
+            r_ = call_functional(product, lm, mlm, ttm, vol, K, call)[:, [j]]
+            ctx.tick(N, nontrivial=N)
+            if not _bitwise_equal(o, r_):
+                jj = _first_diff(o, r_)
+                ctx.violation(site, "price_at_step_accessors_differs_" + ("negative_alias" if i < 0 else "index"),
+                              f"price(log_moneyness({i}), max_log_moneyness({i}), time_to_maturity({i}), vol) != {SITE[product]} at step {j}: path {spot[jj].tolist()}",
+                              observed=float(o.flatten()[jj]), expected=float(r_.flatten()[jj]), block=block, family="derivative_forms")
     for nm_, ref_ in given0.items():
         if not torch.equal(given[nm_], ref_):
             ctx.violation(site, f"mutates_argument_{nm_}", f"price({nm_}=tensor, ...) overwrote the caller's {nm_} tensor",
